@@ -31,6 +31,12 @@ C19_SendTruth(o) ==
       G == {i \in P : o[i].tag \in R}
   IN /\ \A i \in Idx(o) : (o[i].k = "send" /\ o[i].res = "ok" /\ o[i].tag = "u-after") => o[i].tag \in R
      /\ \A i \in P : (\E j \in G : i < j) => i \in G
+(* a client operation returns once its context has ended, whatever happened to the session *)
+C19_Responsive(o) == \A i \in Idx(o) : o[i].k = "send" => o[i].res # "hang"
+(* C11: the built-in ping auto-reply of a builder-made client is a valid, correlated response *)
+C11_PingReply(o) == \A i \in Idx(o) : o[i].k = "pingreply" => o[i].res = "ok"
+(* C08: nothing a server says during the handshake brings the client's process down *)
+C08_ClientNoPanic(o) == \A i \in Idx(o) : o[i].k # "panic"
 (* C08 at the level of the Client: Establish reports success only when a session was really *)
 (* established (the first connection of these cases is answered with another state)          *)
 C08_ClientTruthful(o) ==
@@ -43,7 +49,9 @@ C13_ClientReleases(o) ==
 C19_Closes(o) == \A i \in Idx(o) : o[i].k = "end" => o[i].res = "closed"
 Ops(o) == << <<"C19_Recovers", C19_Recovers(o)>>, <<"C19_NoSpin", C19_NoSpin(o)>>,
              <<"C19_SendTruth", C19_SendTruth(o)>>, <<"C19_Closes", C19_Closes(o)>>,
-             <<"C13_ClientReleases", C13_ClientReleases(o)>>, <<"C08_ClientTruthful", C08_ClientTruthful(o)>> >>
+             <<"C13_ClientReleases", C13_ClientReleases(o)>>, <<"C08_ClientTruthful", C08_ClientTruthful(o)>>,
+             <<"C19_Responsive", C19_Responsive(o)>>, <<"C11_PingReply", C11_PingReply(o)>>,
+             <<"C08_ClientNoPanic", C08_ClientNoPanic(o)>> >>
 Report(n, o) ==
   LET ops == Ops(o)
   IN \A i \in 1 .. Len(ops) : ops[i][2] \/ PrintT(<<"BAD", n, ops[i][1]>>)
